@@ -77,9 +77,15 @@ def r1(ctx):
 
             if not direct_ok(d["block"]):
                 bad = True
+            eq_terms = []
             for a, s, c, truth in guard_conditions(b, d["block"]):
                 if c["kind"] == "call" and re.search(r"PartialEq::eq$", c["callee"]) and truth is True:
-                    t = c["term"]
+                    eq_terms.append(c["term"])
+                elif c["kind"] == "local" and b.local_ty(c["local"]) == "bool" and truth is True:
+                    # predicate computed into a bool (desugared `any(|h| h == "host" || ..)`): equalities feeding it
+                    eq_terms += [t_ for _, t_ in b.slice([c["local"]]).find_calls(r"PartialEq::eq$")]
+            for t in eq_terms:
+                if True:
                     s0, s1 = b.slice_op(t["args"][0]), b.slice_op(t["args"][1])
                     for x, y in ((s0, s1), (s1, s0)):
                         cv = [v_ for v_ in y.const_values() if isinstance(v_, str)]
